@@ -25,6 +25,8 @@ struct Th {
     last_run: u64,
     /// how many times this thread blocked on a condition variable
     cond_blocks: u64,
+    /// scheduling points this thread has passed
+    points: u64,
 }
 
 /// One recorded decision with more than one candidate.
@@ -92,6 +94,7 @@ impl Sched {
                     yielded: false,
                     last_run: 0,
                     cond_blocks: 0,
+                    points: 0,
                 }],
                 current: Some(0),
                 prefix,
@@ -137,6 +140,13 @@ impl Sched {
     pub fn cond_blocks(&self, tid: usize) -> u64 {
         let st = self.st.lock().unwrap();
         st.th.get(tid).map(|t| t.cond_blocks).unwrap_or(0)
+    }
+
+    /// Scheduling points the thread has passed so far: unchanged between two observations = the
+    /// thread did not execute any synchronisation operation in between.
+    pub fn points_of(&self, tid: usize) -> u64 {
+        let st = self.st.lock().unwrap();
+        st.th.get(tid).map(|t| t.points).unwrap_or(0)
     }
 
     pub fn is_done(&self, tid: usize) -> bool {
@@ -186,6 +196,9 @@ impl Sched {
 
     fn note(st: &mut State, me: usize, op: &'static str) {
         st.steps += 1;
+        if let Some(t) = st.th.get_mut(me) {
+            t.points += 1;
+        }
         for b in op.bytes().chain([me as u8]) {
             st.trace_hash ^= b as u64;
             st.trace_hash = st.trace_hash.wrapping_mul(0x100000001b3);
@@ -291,6 +304,7 @@ impl Scheduler for Sched {
             yielded: false,
             last_run: 0,
             cond_blocks: 0,
+            points: 0,
         });
         st.th.len() - 1
     }
